@@ -1,6 +1,7 @@
 package sstable
 
 import (
+	"bytes"
 	"encoding/binary"
 	"fmt"
 	"sync"
@@ -109,16 +110,13 @@ func (it *Iterator) Seek(target []byte) bool {
 	it.err = nil
 	it.initialized = true
 
-	// Find the block that might contain the key
-	// The index contains the first key of each block
-	if !it.indexIterator.Seek(target) {
-		// If seeking in the index fails, try the last block
-		it.indexIterator.SeekToLast()
-		if !it.indexIterator.Valid() {
-			// No blocks in the SSTable
-			it.resetBlockIterator()
-			return false
-		}
+	// Find the block that might contain the key. The index holds the first key
+	// of each block, so that is the last block whose first key is <= target
+	// (or the first block when the target precedes every key)
+	if !seekIndexToBlockFor(it.indexIterator, target) {
+		// No blocks in the SSTable
+		it.resetBlockIterator()
+		return false
 	}
 
 	// Load the data block at the current index position
@@ -236,6 +234,33 @@ func (it *Iterator) Error() error {
 }
 
 // Helper methods for common operations
+
+// seekIndexToBlockFor positions an index-block iterator on the entry of the
+// data block that may hold target: the last entry whose key (the block's first
+// key) is <= target, or the first entry if target precedes all of them.
+// It returns false if the index has no entries.
+func seekIndexToBlockFor(indexIter *block.Iterator, target []byte) bool {
+	indexIter.SeekToFirst()
+	if !indexIter.Valid() {
+		return false
+	}
+
+	// Count the entries whose key is <= target
+	n := 0
+	for indexIter.Valid() && bytes.Compare(indexIter.Key(), target) <= 0 {
+		n++
+		if !indexIter.Next() {
+			break
+		}
+	}
+
+	// Reposition on the last of them (block iterators only move forward)
+	indexIter.SeekToFirst()
+	for i := 1; i < n; i++ {
+		indexIter.Next()
+	}
+	return indexIter.Valid()
+}
 
 // resetBlockIterator resets current block and iterator
 func (it *Iterator) resetBlockIterator() {
